@@ -343,6 +343,151 @@ class _SearchVocab:
         return None
 
 
+# ------------------------------------------------------------------------------------------------- operator tables
+_OPERATOR_FUNCS = {'eq': ast.Eq, 'ne': ast.NotEq, 'lt': ast.Lt, 'le': ast.LtE, 'gt': ast.Gt, 'ge': ast.GtE,
+                   'is_': ast.Is, 'is_not': ast.IsNot}
+
+
+class _Tables:
+    """dict literals `NAME = {'<suffix>': operator.xx | lambda a, b: ..}` visible from `search`: module level, class level,
+    the enclosing functions and `search` itself.  A name bound more than once is not used (-> the rule stays undecided)."""
+
+    def __init__(self, func):
+        self.tables: Dict[str, Optional[Dict[str, ast.AST]]] = {}
+        self.imports = func.module.imports
+        scopes = [func.module.tree.body]
+        for st in func.module.tree.body:
+            if isinstance(st, ast.ClassDef) and st.name == func.cls:
+                scopes.append(st.body)
+        chain, p = [], func
+        while p is not None:
+            chain.append(p)
+            p = p.parent
+        for fn in chain:
+            scopes.append([n for n in walk_no_nested(fn.node) if isinstance(n, (ast.Assign, ast.AnnAssign))])
+        for body in scopes:
+            for st in body:
+                tgt = val = None
+                if isinstance(st, ast.Assign) and len(st.targets) == 1:
+                    tgt, val = st.targets[0], st.value
+                elif isinstance(st, ast.AnnAssign):
+                    tgt, val = st.target, st.value
+                if isinstance(tgt, ast.Name) and isinstance(val, ast.Dict) and val.keys and \
+                        all(isinstance(k, ast.Constant) and isinstance(k.value, str) for k in val.keys):
+                    d = {k.value: v for k, v in zip(val.keys, val.values)}
+                    self.tables[tgt.id] = None if tgt.id in self.tables else d
+
+    def lookup(self, e) -> Optional[Dict[str, ast.AST]]:
+        if isinstance(e, ast.Dict) and e.keys and all(isinstance(k, ast.Constant) and isinstance(k.value, str) for k in e.keys):
+            return {k.value: v for k, v in zip(e.keys, e.values)}
+        if isinstance(e, ast.Name):
+            return self.tables.get(e.id)
+        if isinstance(e, ast.Attribute) and isinstance(e.value, ast.Name):      # self.TABLE / Class.TABLE
+            return self.tables.get(e.attr)
+        return None
+
+    def operator_of(self, fn) -> Optional[type]:
+        """operator.le / `le` imported from operator -> ast.LtE"""
+        if isinstance(fn, ast.Attribute) and isinstance(fn.value, ast.Name) and self.imports.get(fn.value.id) == 'operator':
+            return _OPERATOR_FUNCS.get(fn.attr)
+        if isinstance(fn, ast.Name) and self.imports.get(fn.id, '').startswith('operator.'):
+            return _OPERATOR_FUNCS.get(self.imports[fn.id].split('.', 1)[1])
+        return None
+
+
+_NOMATCH = '\x00<attribute name>'
+
+
+class _Specialiser(ast.NodeTransformer):
+    """partial evaluation of a condition for keys `name + A`: `k[-n:]` becomes a constant, lookups in operator tables are
+    resolved, `operator.le(a, b)` / `(lambda a, b: a <= b)(a, b)` become comparisons, constant tests are folded"""
+
+    def __init__(self, suffix: str, V, tables: _Tables):
+        self.A, self.V, self.T = suffix, V, tables
+        self.used_key = False
+
+    def tail(self, e) -> Optional[ast.AST]:
+        if isinstance(e, ast.Subscript) and self.V.is_key(e.value) and isinstance(e.slice, ast.Slice) and e.slice.upper is None \
+                and e.slice.step is None:
+            n = _const_int(e.slice.lower)
+            if n is not None and n < 0:
+                self.used_key = True
+                # by assumption attribute names do not end in (part of) a suffix: a longer tail matches no table key
+                return ast.Constant(value=self.A[n:] if self.A and -n <= len(self.A) else _NOMATCH)
+        return None
+
+    def _strs(self, e) -> Optional[List[str]]:
+        """collection of constant strings: literal tuple/list/set, a table, tuple(table), table.keys()"""
+        if isinstance(e, (ast.Tuple, ast.List, ast.Set)) and all(isinstance(x, ast.Constant) for x in e.elts):
+            return [x.value for x in e.elts]
+        t = self.T.lookup(e)
+        if t is not None:
+            return list(t)
+        if isinstance(e, ast.Call) and not e.keywords:
+            if isinstance(e.func, ast.Name) and e.func.id in ('tuple', 'list', 'set', 'frozenset') and len(e.args) == 1:
+                return self._strs(e.args[0])
+            if isinstance(e.func, ast.Attribute) and e.func.attr == 'keys' and not e.args:
+                return self._strs(e.func.value)
+        return None
+
+    def visit_Subscript(self, node):
+        t = self.tail(node)
+        if t is not None:
+            return t
+        self.generic_visit(node)
+        tab = self.T.lookup(node.value)
+        if tab is not None and isinstance(node.slice, ast.Constant) and node.slice.value in tab:
+            return copy.deepcopy(tab[node.slice.value])
+        return node
+
+    def visit_Compare(self, node):
+        self.generic_visit(node)
+        if len(node.ops) != 1:
+            return node
+        l, op, r = node.left, node.ops[0], node.comparators[0]
+        if isinstance(l, ast.Constant) and isinstance(l.value, str):
+            if isinstance(op, (ast.Eq, ast.NotEq)) and isinstance(r, ast.Constant):
+                return ast.Constant(value=(l.value == r.value) == isinstance(op, ast.Eq))
+            if isinstance(op, (ast.In, ast.NotIn)):
+                strs = self._strs(r)
+                if strs is not None:
+                    return ast.Constant(value=(l.value in strs) == isinstance(op, ast.In))
+        if isinstance(r, ast.Constant) and isinstance(r.value, str) and isinstance(l, ast.Constant) is False and \
+                isinstance(op, (ast.Eq, ast.NotEq)) and False:
+            return node
+        return node
+
+    def visit_Call(self, node):
+        # k.endswith(<tuple of suffixes / table>)
+        if isinstance(node.func, ast.Attribute) and node.func.attr == 'endswith' and self.V.is_key(node.func.value) \
+                and len(node.args) == 1 and not node.keywords and not isinstance(node.args[0], ast.Constant):
+            strs = self._strs(node.args[0])
+            if strs is not None:
+                self.used_key = True
+                return ast.Constant(value=bool(self.A) and any(self.A.endswith(x) for x in strs))
+        self.generic_visit(node)
+        fn = node.func
+        # TABLE.get('<suffix>'[, default])
+        if isinstance(fn, ast.Attribute) and fn.attr == 'get' and node.args and isinstance(node.args[0], ast.Constant) \
+                and not node.keywords and len(node.args) <= 2:
+            tab = self.T.lookup(fn.value)
+            if tab is not None:
+                if node.args[0].value in tab:
+                    return copy.deepcopy(tab[node.args[0].value])
+                return node.args[1] if len(node.args) == 2 else ast.Constant(value=None)
+        if len(node.args) == 2 and not node.keywords:
+            opc = self.T.operator_of(fn)
+            if opc is not None:
+                return ast.Compare(left=node.args[0], ops=[opc()], comparators=[node.args[1]])
+            if isinstance(fn, ast.Attribute) and fn.attr == 'contains' and self.T.operator_of(
+                    ast.Attribute(value=fn.value, attr='eq', ctx=ast.Load())) is not None:
+                return ast.Compare(left=node.args[1], ops=[ast.In()], comparators=[node.args[0]])
+            if isinstance(fn, ast.Lambda) and len(fn.args.args) == 2 and not fn.args.defaults and not fn.args.vararg \
+                    and not fn.args.kwarg and not fn.args.kwonlyargs:
+                return subst(fn.body, {fn.args.args[0].arg: node.args[0], fn.args.args[1].arg: node.args[1]})
+        return node
+
+
 # ------------------------------------------------------------------------------------------------- helpers for lists
 def _whole(e: ast.AST, is_base, order_matters=False):
     """is e the whole collection `base` (possibly copied)?  -> 'whole' | ('filtered', why) | ('reordered', why) | None"""
@@ -503,19 +648,14 @@ def _suffix_table(ctx):
             o.undecided(f, u.node, u.node, u.msg)
             return
         V = _SearchVocab(task_p, key_v, val_is, resolver.name)
-        # literal suffixes tested by the code (reported, and used for the "unknown key test" check)
-        for p in paths:
-            for e, pol, org in p.atoms:
-                if V.ends(e) is None and V.mentions_key_test(e) and V.classify(e) is None:
-                    o.undecided(f, org, e, "a test on the filter keyword that is not `k.endswith('<literal>')`")
-                    return
+        tables = _Tables(f)
         for suffix in SPEC:
-            _one_suffix(o, f, V, paths, suffix)
+            _one_suffix(o, f, V, paths, suffix, tables)
 
     ctx.guarded(o, body)
 
 
-def _one_suffix(o, f, V: _SearchVocab, paths: List[_Path], suffix: str):
+def _one_suffix(o, f, V: _SearchVocab, paths: List[_Path], suffix: str, tables: '_Tables'):
     label = f"`{suffix}`" if suffix else "plain keyword (no suffix)"
     fam, op = SPEC[suffix]
     feasible: List[Tuple[_Path, list, Optional[str]]] = []
@@ -524,7 +664,17 @@ def _one_suffix(o, f, V: _SearchVocab, paths: List[_Path], suffix: str):
         for e, pol, org in p.atoms:
             s = V.ends(e)
             if s is None:
-                rest.append((e, pol, org))
+                # table-driven dispatch / operator lookup: evaluate what can be evaluated for keys `name + suffix`
+                sp = _Specialiser(suffix, V, tables)
+                e2 = sp.visit(copy.deepcopy(e))
+                if isinstance(e2, ast.Constant):
+                    if bool(e2.value) != pol:
+                        ok = False
+                        break
+                    if pol and sp.used_key:
+                        branch = suffix          # dispatched through a table / tuple of suffixes that contains this one
+                    continue
+                rest.append((ast.fix_missing_locations(e2), pol, org))
                 continue
             truth = bool(suffix) and suffix.endswith(s)
             if truth != pol:
@@ -902,6 +1052,16 @@ def _call_returns(ctx):
                                        (f"len({KW}) > 0", False)])
             v = ex.expand(r.value)
             m = match("_ImmutableTaskList($c)", v)
+            live = None
+            if match(SELF, v) or match(f"{SELF}._list", v):
+                live = f"`return {src(v)}` hands out the receiver's live list"
+            elif m and (match(SELF, m['c']) or match(f"{SELF}._list", m['c'])):
+                live = f"`{src(v)}` wraps the receiver's live list without copying it"
+            if live:
+                o2.refute(f, r, r.value, f"{live} instead of a new list of the matching tasks: the result changes when the list changes "
+                                         f"later, and remove_all iterates the very list that `remove` rewrites (every other match is "
+                                         f"skipped)")
+                continue
             comp = m['c'] if m else None
             while comp is not None and isinstance(comp, ast.Call) and isinstance(comp.func, ast.Name) and comp.func.id == 'list' \
                     and len(comp.args) == 1:
